@@ -103,7 +103,7 @@ func init() {
 	register(&Check{
 		ID:    "C08",
 		Level: "exploration",
-		Rule: "exhaustive enumeration of source texts: (1) all sequences of <= k tokens over a 66-token alphabet (one representative per parser-relevant class, incl. truncated strings/comments/regex literals) in each of 14 grammatical contexts; (2) every byte prefix and every token prefix of every corpus program (docs/examples, every source compiled by the repository's tests, generated programs covering each production); (3) every one-token deletion, duplication, adjacent swap and substitution by each alphabet token of those programs; (4) every regex-literal body of <= m chars over a 24-char alphabet and every string-literal body of <= 5 chars over {backslash, x, 0, G, both quotes, blank, newline} in both quote styles; (5) every byte string of length <= 2 (thorough 3 over a 40-byte subset); " +
+		Rule: "exhaustive enumeration of source texts: (1) all sequences of <= k tokens over a 66-token alphabet (one representative per parser-relevant class, incl. truncated strings/comments/regex literals) in each of 14 grammatical contexts; (2) every byte prefix and every token prefix of every corpus program (docs/examples, every source compiled by the repository's tests, generated programs covering each production); (3) every one-token deletion, duplication, adjacent swap and substitution by each alphabet token of those programs; (4) every regex-literal body of <= m chars over a 24-char alphabet and every string-literal body of <= 5 chars over {backslash, x, 0, G, both quotes, blank, newline} in both quote styles; (5) every byte string of length <= 2 (thorough 3 over a 40-byte subset); (6) 32 templates with a count in every numeric position of the language (loop bounds, nested loops, amounts, regex {n,m}, process numbers) x 16 count values from 0 to 10^30 incl. 2^31, 2^32, 2^63-1, 2^63, 2^64 (pairs for two-position templates), one source per unit; " +
 			"oracle: program xor error, error printable, no panic, no hang (20 s / 2 GiB watchdog), accepted tree has no nil node and every command generated; non-trivial = distinct sources that Compile rejects with an error or accepts after a non-trivial parse (all sources are distinct by construction; counted: sources with >= 2 tokens)",
 		Assume: []string{"time/memory bound is decided as: within 20 s and 2 GiB per source on the enumerated short sources"},
 		Budget: map[string]int{"quick": 150, "thorough": 1500},
@@ -304,6 +304,32 @@ func runC08(c *Ctx) {
 		gen(nil)
 		b.flush()
 	}
+	// (6) counts: every numeric position of the language x count values up to and beyond the
+	// integer limits; one source per unit, so the cost of compiling it is bounded by the watchdog
+	// (a count must not be paid for in compile time or memory)
+	if c.Level("counts") {
+		for _, src := range c08CountSources() {
+			src := src
+			if !c.Unit(func() string { return "counts: Compile(" + strQuote(src) + ")" }) {
+				continue
+			}
+			c.Eval(1)
+			c.Nontrivial(1)
+			class, msg, accepted := totalCompile(src)
+			if accepted {
+				c.Count("accepted", 1)
+				c.Count("count_sources_accepted", 1)
+			}
+			if class != "" {
+				c.Violation(class, msg, map[string]any{"kind": "compile", "src": src})
+				c.Outcome(class)
+			} else if accepted {
+				c.Outcome("accepted")
+			} else {
+				c.Outcome("rejected")
+			}
+		}
+	}
 	// (5) raw bytes
 	if c.Level("bytes:len<=2") {
 		b.label = "bytes"
@@ -328,4 +354,40 @@ func runC08(c *Ctx) {
 		}
 		b.flush()
 	}
+}
+
+var c08Counts = []string{"0", "1", "2", "007", "64", "1000", "65536", "1000000", "2147483647", "2147483648", "4294967296", "1000000000000",
+	"9223372036854775807", "9223372036854775808", "18446744073709551616", "1000000000000000000000000000000"}
+
+// c08CountSources: each template has one or two numeric positions; every position takes every
+// value of c08Counts (two positions: all pairs).
+func c08CountSources() []string {
+	one := []string{
+		"find all exactly # 'a'", "find all at least # 'a'", "find all at most # 'a'", "find all at least # 'a' fewest", "find all exactly # ('a' = x)",
+		"find all at least # (any = c) named l", "find all exactly # (exactly # 'a')", "find all at least # (at least # (at least # 'a'))",
+		"find all exactly # in 'a', 'b'", "find all exactly # ('a' or 'b')", "set p to pattern exactly # 'a'\nfind all p p", "replace all at least # 'a' with 'x'",
+		"find skip # 'a'", "find take # 'a'", "find top # 'a'", "find last # 'a'", "find skip # take # 'a'", "replace last # 'a' with 'b'",
+		"find all @/a{#}/", "find all @/a{#,}/", "find all @/a{1,#}/", "find all @/(a{#}){#}/", "find all @/(a|b){#}c/", "find all @/a{#}?/",
+		"set f to transform return # end\nreplace all 'a' with f", "set f to transform return 1 + # end\nreplace all 'a' with f",
+		"set p to pattern any begin return matchLength < # end\nfind all p", "set f to transform set i to # loop if i > # then break end set i to i + 1 end return i end\nreplace all 'a' with f",
+	}
+	two := []string{"find all between # and # 'a'", "find all between # and # 'a' fewest", "find all @/a{#,#}/", "find all between # and # (between # and # 'a')"}
+	var out []string
+	for _, t := range one {
+		for _, v := range c08Counts {
+			out = append(out, strings.ReplaceAll(t, "#", v))
+		}
+	}
+	for _, t := range two {
+		for _, v := range c08Counts {
+			for _, w := range c08Counts {
+				r := strings.Replace(t, "#", v, 1)
+				r = strings.Replace(r, "#", w, 1)
+				r = strings.Replace(r, "#", w, 1)
+				r = strings.Replace(r, "#", v, 1)
+				out = append(out, r)
+			}
+		}
+	}
+	return out
 }
